@@ -1,6 +1,6 @@
 (* C02 — Errors in prefixes of valid programs are partial, so the REPL keeps
    reading.  Property theorems only; every proof is [exact <lemma>]. *)
-From verif Require Import lib.Base lib.Utf8 model.C01_Parse model.C02 proofs.C02_proofs proofs.C01_sweep.
+From verif Require Import lib.Base lib.Utf8 model.C01_Parse model.C02 proofs.C01_Utf8_proofs proofs.C02_proofs proofs.C01_sweep proofs.C02_Prefix_proofs.
 
 (* The oracle on the observed errors / Enter decisions is sound. *)
 Theorem C02_oracle_sound : forall src full pre,
@@ -46,6 +46,33 @@ Theorem C02_prefix_errors_partial_partial : forall s,
     /\ (es <> [] -> isSyntaxComplete p es = false).
 Proof. exact sweep_prefix_prop. Qed.
 Print Assumptions C02_prefix_errors_partial_partial.
+
+(* Prefixes of valid programs, UNBOUNDED and for ALL valid programs: the
+   grammar is G = { p | the model parses p without any error } -- every
+   construct of the language (barewords, all string and escape forms,
+   variables, wildcards, tilde, captures, lists, maps, lambdas, braced lists,
+   indexing, pipelines, redirections incl. fd duplication, options, background
+   jobs, comments, line continuations), any bytes incl. invalid UTF-8.
+   For every p in G, every Unicode table and every rune boundary L of p (a
+   position reached by decoding forward from 0; L <= len p), the prefix p[:L]
+   parses (no OutOfFuel), every error of it starts at L and is marked partial,
+   and isSyntaxComplete is false when there is one (Enter inserts a newline). *)
+Theorem C02_prefix_errors_partial : forall is_print p t,
+  parse_model is_print p = Some (t, []) ->
+  forall L, boundary p L -> L <= length p ->
+  exists t' es, parse_model is_print (firstn L p) = Some (t', es)
+    /\ (forall e, In e es -> e_from e = L /\ e_partial e = true)
+    /\ (es <> [] -> isSyntaxComplete (firstn L p) es = false).
+Proof. exact prefix_errors_partial_full. Qed.
+Print Assumptions C02_prefix_errors_partial.
+
+(* the same under the name asked for: G is the set of all error-free programs *)
+Theorem C02_prefix_errors_partial_G : forall is_print p, C02_G is_print p ->
+  forall L, boundary p L -> L <= length p ->
+  forall t' es, parse_model is_print (firstn L p) = Some (t', es) ->
+  forall e, In e es -> e_from e = L /\ e_partial e = true.
+Proof. exact prefix_errors_partial_on_G. Qed.
+Print Assumptions C02_prefix_errors_partial_G.
 
 (* non-vacuity: the prefix "a |" of the valid "a | b" has exactly one error,
    partial, at its end *)
